@@ -86,6 +86,7 @@ def run(ctx, spec, out):
 # must be answered like a single lmd that holds all backends (the model's answer on the union of the backends).
 
 T0 = 1700000000
+SCHEMA_QUERY = "GET columns\nColumns: table name\nOutputFormat: json\n\n"
 
 
 def cluster_part(ctx, v, out):
@@ -101,6 +102,9 @@ def cluster_part(ctx, v, out):
         n += 1
         line = dict(line, id=n)
         impl_lines.append(line)
+        if line["op"] in ("cluster", "cstart", "cstop", "ccheck", "cstate", "cquery"):
+            # the model's nodes need the ids of the backends only (their objects come with the sync line)
+            model_lines.append(dict(line, backends=[{"id": b["id"]} for b in line["backends"]]) if line["op"] == "cluster" else line)
         return n
 
     for si in range(nscen):
@@ -148,10 +152,10 @@ def cluster_part(ctx, v, out):
                       "GET hosts\nStats: state = 0\nStats: avg latency\nStats: max last_check\nStats: min state\nOutputFormat: json\n\n",
                       "GET services\nColumns: host_name\nStats: state != 9\nStats: sum state\nOutputFormat: json\n\n",
                       "GET hosts\nColumns: name\nAuthUser: alice\nOutputFormat: json\n\n"]
+            texts.append(SCHEMA_QUERY)
             for text in texts:
                 node = rng.choice(sorted(running))
                 nonlocal_n = add({"op": "cquery", "node": node, "text": text, "optimize": True})
-                model_lines.append({"op": "query", "id": nonlocal_n, "text": text, "optimize": True})
                 queries.append((nonlocal_n, node, text))
             steps.append({"what": what, "running": sorted(running), "states": states, "queries": queries})
 
@@ -203,6 +207,17 @@ def cluster_part(ctx, v, out):
     with concurrent.futures.ThreadPoolExecutor(4) as ex:
         outs = list(ex.map(one, enumerate(chunks)))
     model = common.run_model(ctx["schema_path"], model_lines)
+    # what a single lmd says about its schema (one node is not a cluster)
+    base_lines = [{"op": "clock", "id": 1, "seconds": T0}, {"op": "cluster", "id": 2, "config": {"max_parallel_peer_connections": 1, "backend_keepalive": False}, "backends": scen[0]["dataset"]["world"][:1], "nodes": 1, "start": [0]},
+                  {"op": "cquery", "id": 3, "node": 0, "text": SCHEMA_QUERY, "optimize": True}, {"op": "cend", "id": 4}]
+    _, bres, _, _ = common._run_once(ctx["binary"], base_lines, scratch + "-base", 120)
+    try:
+        baseline = sorted(json.dumps(r) for r in json.loads((bres.get(3) or {}).get("body") or ""))
+    except ValueError:
+        baseline = None
+    if not baseline:
+        baseline = None
+        v.corr_broken.append(({"text": SCHEMA_QUERY, "dataset": None}, "no answer of a single lmd for the columns table: %s" % str(bres.get(3))[:200]))
     totals = {"scenarios": nscen, "steps": 0, "queries": 0, "distributed_answers": 0}
     known = {f.get("id") for f in common.load_known_findings() if f.get("property") == "C18" and f.get("status", "open") == "open"}
     for sc, chunk, (rc, impl, err, timed_out) in zip(scen, chunks, outs):
@@ -245,6 +260,18 @@ def cluster_part(ctx, v, out):
             if problem:
                 v.violations.append(("property", case, problem + " (step: %s)" % st["what"]))
                 continue
+            # correspondence: the views of the implementation's nodes are the views of Lmd.NodeView.check
+            for i, sid in st["states"].items():
+                mv = (model.get(sid) or {}).get("state")
+                if mv is None:
+                    v.corr_broken.append((case, "node %d: no view from the model: %s" % (i, str(model.get(sid))[:200])))
+                    break
+                iv = views[i]
+                mine = {"online": sorted(iv["online"] or []), "assigned": iv["assigned"] or [], "node_backends": {kk: vv or [] for kk, vv in (iv["node_backends"] or {}).items()}}
+                theirs = {"online": sorted(mv["online"] or []), "assigned": mv["assigned"] or [], "node_backends": {kk: vv or [] for kk, vv in (mv["node_backends"] or {}).items()}}
+                if mine != theirs:
+                    v.corr_broken.append((case, "node %d after '%s': implementation %s, model %s" % (i, st["what"], mine, theirs)))
+                    break
             if len(st["running"]) >= 2 and len(sc["backends"]) >= 2:
                 v.stats["nontrivial"] += 1
             v.bump("cluster step ok: %d of %d nodes" % (len(st["running"]), sc["k"]))
@@ -254,6 +281,18 @@ def cluster_part(ctx, v, out):
                     totals["distributed_answers"] += 1
                 qcase = {"text": text, "optimize": True, "dataset": sc["dataset"], "has_header_row": queryfam.has_header_row(text), "dataset_hash": common.case_hash(sc["backends"]) + str(qid),
                          "extra": {"part": "cluster", "asked_node": node, "running": st["running"], "assignment": assigned, "step": st["what"], "lines": [l for l in chunk if l["id"] <= qid and l["op"] != "cquery"] + [l for l in chunk if l["id"] == qid]}}
+                if text == SCHEMA_QUERY:
+                    # lmd's own schema: the same list whoever is asked, every line once
+                    v.stats["evaluated"] += 1
+                    try:
+                        rows = json.loads((impl.get(qid) or {}).get("body") or "")
+                    except ValueError:
+                        rows = None
+                    if not isinstance(rows, list) or not rows:
+                        v.violations.append(("property", qcase, "the columns table was not answered: %s" % str(impl.get(qid))[:300]))
+                    elif baseline is not None and sorted(json.dumps(r) for r in rows) != baseline:
+                        v.violations.append(("property", qcase, "the columns table has %d lines when a node of this cluster is asked, %d on a single lmd: lmd's schema is the same whoever is asked" % (len(rows), len(baseline))))
+                    continue
                 before = len(v.violations)
                 queryfam.evaluate_case(v, qcase, impl.get(qid), model.get(qid), set())
                 if len(v.violations) > before and "cluster-sort-missing-list-value" in known and missing_list_sort_key(schema, text) \
